@@ -45,6 +45,9 @@ func (p *Prog) VerifyFunc(con *Contract) (res *FuncResult) {
 	x := &exec{p: p, c: NewCtx(con.Mode), fn: fn, con: con, subAx: map[string]bool{}, notes: map[string]bool{},
 		exprAt: exprIndex(fn), specFns: map[string]*specFn{}, pureFns: map[string]bool{}, fnName: fn.String(), fnPos: fn.Pos(), sliceElem: map[string]string{}, mapField: map[string]*types.Map{}}
 	x.h = &heapEnv{c: x.c, sorts: map[string]string{}}
+	if fn.Pkg != nil {
+		x.file = p.fileOf(fn.Pkg.Pkg.Path(), fn.Pos())
+	}
 	defer func() {
 		if r := recover(); r != nil {
 			if u, ok := r.(unsupported); ok {
@@ -81,6 +84,7 @@ func (x *exec) verify(res *FuncResult) {
 	for i, prm := range fn.Params {
 		term := x.c.Const("in."+sanitize(names[i]), x.c.SortOf(prm.Type()))
 		v := x.mkVal(term, prm.Type())
+		v.Tag = "param:" + names[i]
 		fr.params = append(fr.params, v)
 		vars[names[i]] = v
 		x.assume(st, x.wf(term, prm.Type()))
@@ -117,6 +121,17 @@ func (x *exec) verify(res *FuncResult) {
 		post := &Env{x: x, vars: map[string]*Val{}, st: sr, old: entry, pkg: tp, fnPkg: con.PkgPath}
 		for k, v := range vars {
 			post.vars[k] = v
+		}
+		// postconditions may mention function-level locals (their values at return), e.g. a set built by the function
+		endPos := fn.Pos()
+		if syn := fn.Syntax(); syn != nil {
+			endPos = syn.End() - 1
+		}
+		post.cell = func(name string) *Val {
+			if _, isParam := vars[name]; isParam {
+				return nil
+			}
+			return x.lookupLocal(fr, post.st, name, endPos, tp)
 		}
 		n := fn.Signature.Results().Len()
 		var outs []*Val
